@@ -356,6 +356,13 @@ func propC17(w *World, r *Report) {
 	RunBigEndian(w, r, func(p string) bool { return p == pk.Pkg.Path() })
 	RunNarrowArith(w, r, methods)
 	RunControl(r, "narrowarith", "ctlNarrowArith", RunNarrowArith)
+	for _, a := range boundsAssumptions {
+		r.Assumes(a)
+	}
+	r.Assumes("A4: the reader underneath the parser honours the io.Reader contract: Read(buf) returns 0 <= n <= len(buf)")
+	br := newBoundsRun(w)
+	RunParserInvariant(w, r, br)
+	RunBounds(w, r, "bounds", br, methods)
 	ef := &errflow{w: w, r: r}
 	ef.computeIOErr()
 	ef.RunErrDrop(methods)
